@@ -884,3 +884,159 @@ def proxy_write_is_one_item(code, cid, payload) -> bool:
         return False
     c, i, data = gw.sent[0]
     return c == gb.Message.CHANNEL_DATA and i == ch.id and ch_loads(gb.loads_internal, data) == ref_frame(code, cid, payload)
+
+
+# ---------------------------------------------------------------------------------------
+# C04: connection loss at any byte (receiver thread run synchronously over a scripted IO)
+# ---------------------------------------------------------------------------------------
+
+class _SyncPoolGateway(gb.BaseGateway):
+    """The real BaseGateway; nothing overridden (the receiver thread body is called directly)."""
+
+
+def build_survivor(transport: str, wire: bytes, chunks, cut):
+    em = FakeExecModel()
+    src = ChunkSource(wire, chunks, cut)
+    if transport == "popen":
+        out = PipeFile()
+        io = gb.Popen2IO(out, PipeFile(src), em)
+    else:
+        from execnet.gateway_socket import SocketIO
+
+        sock = FakeSocket(src)
+        orig_sendall = sock.sendall
+
+        def sendall(b):
+            if sock.shut:
+                raise OSError("socket is shut down")
+            orig_sendall(b)
+
+        sock.sendall = sendall
+        io = SocketIO(sock, em)
+    gw = _SyncPoolGateway(io, "survivor", _startcount=1)
+    return gw
+
+
+WOULD_BLOCK = object()
+
+
+class WouldBlock(Exception):
+    pass
+
+
+def recv_nb(ch):
+    """channel.receive() that reports 'would block forever' instead of blocking (no timeouts:
+    CrossHair makes the clock symbolic).  Peeks at the queue only to decide that."""
+    q = ch._items
+    if q is not None and q.empty():
+        raise WouldBlock("receive() would block")
+    return ch.receive()
+
+
+def waitclose_nb(ch):
+    if not ch._receiveclosed.is_set():
+        raise WouldBlock("waitclose() would block")
+    return ch.waitclose()
+
+
+def connection_loss_ok(transport: str, frames, cut, chunks, nchannels: int = 2, cb_channel: int = -1) -> bool:
+    """frames: list of (kind, channel_index[, item]) with kind in data/close/last/closeerr.
+    The peer->survivor stream is cut after `cut` bytes.  Channel `cb_channel` (if >= 0) has a
+    callback with endmarker; the others are read with receive()."""
+    ids = [1 + 2 * k for k in range(nchannels)]
+    wire = b""
+    ends = []
+    for fr in frames:
+        kind, ci = fr[0], fr[1]
+        if kind == "data":
+            f = ref_frame(gb.Message.CHANNEL_DATA, ids[ci], gb.dumps_internal(fr[2]))
+        elif kind == "close":
+            f = ref_frame(gb.Message.CHANNEL_CLOSE, ids[ci], b"")
+        elif kind == "last":
+            f = ref_frame(gb.Message.CHANNEL_LAST_MESSAGE, ids[ci], b"")
+        else:
+            f = ref_frame(gb.Message.CHANNEL_CLOSE_ERROR, ids[ci], gb.dumps_internal("boom"))
+        wire = wire + f
+        ends.append(len(wire))
+    gw = build_survivor(transport, wire, chunks, cut)
+    chans = [gw.newchannel() for _ in range(nchannels)]
+    for c, want in zip(chans, ids):
+        if c.id != want:
+            return False
+    seen_cb = []
+    END = object()
+    if cb_channel >= 0:
+        chans[cb_channel].setcallback(seen_cb.append, endmarker=END)
+    # the receiver thread's body, synchronously; it must terminate and not raise
+    gw._thread_receiver()
+    # what arrived completely, per channel, in order
+    for ci, ch in enumerate(chans):
+        want_items = []
+        ended_by = None
+        for fr, end in zip(frames, ends):
+            if fr[1] != ci or not (end <= cut):
+                continue
+            if ended_by is not None:
+                continue  # frames after a complete close are dropped
+            if fr[0] == "data":
+                want_items.append(fr[2])
+            else:
+                ended_by = fr[0]
+        if ci == cb_channel:
+            if seen_cb != want_items + [END]:   # every complete item once, in order, endmarker once and last
+                return False
+            try:
+                recv_nb(ch)
+                return False
+            except OSError:
+                pass
+            continue
+        for w in want_items:
+            try:
+                got = recv_nb(ch)
+            except Exception:
+                return False
+            if got is WOULD_BLOCK:
+                return False
+            if got != w:
+                return False
+        for _ in range(2):  # then EOFError (RemoteError once if the peer closed with an error), again and again
+            try:
+                recv_nb(ch)
+                return False
+            except EOFError:
+                pass
+            except gb.RemoteError:
+                if ended_by != "closeerr":
+                    return False
+        try:
+            waitclose_nb(ch)
+            return False      # the connection is gone: waitclose reports it
+        except EOFError:
+            pass
+        except gb.RemoteError:
+            return False      # already consumed by receive above
+    # the gateway knows, and refuses further use
+    if not isinstance(getattr(gw, "_error", None), EOFError):
+        return False
+    if not gw._channelfactory.finished:
+        return False
+    for ch in chans:
+        try:
+            ch.send(1)
+            return False
+        except OSError:
+            pass
+    try:
+        gw.newchannel()
+        return False
+    except OSError:
+        pass
+    from execnet.gateway import Gateway
+
+    try:
+        Gateway.remote_exec(gw, "pass")
+        return False
+    except OSError:
+        pass
+    return True
